@@ -59,6 +59,8 @@ class ProgProp(object):
                 "faults": s.get("faults"), "variants": len(case["variants"]), "outcome": r.get("outcome")}
 
     def use_staged(self, spec):
+        if spec.get("cache_hits"):
+            return False  # (the pass/flush model assumes every request waits for its flush)
         if self.staged is not None:
             return self.staged and not spec.get("reentry")
         return not spec.get("reentry")
